@@ -452,6 +452,27 @@ func normalise(mod []*packages.Package, fset *token.FileSet, known map[string]bo
 				}
 			}
 		}
+		// two candidates called in one statement (f(g())): the edits of the two sites would overlap.
+		// The inner call's helper waits for the next pass, when the outer one has been expanded and
+		// the inner call sits in a statement of its own
+		for obj, cd := range cands {
+			if cands[obj] == nil {
+				continue
+			}
+			for _, s := range cd.sites {
+				for other, od := range cands {
+					if other == obj {
+						continue
+					}
+					for _, t := range od.sites {
+						if t.file == s.file && s.stmt != nil && t.call != s.call && s.stmt.Pos() <= t.call.Pos() && t.call.End() <= s.stmt.End() &&
+							s.call.Pos() <= t.call.Pos() && t.call.End() <= s.call.End() {
+							delete(cands, other)
+						}
+					}
+				}
+			}
+		}
 		if len(cands) == 0 {
 			continue
 		}
